@@ -44,7 +44,7 @@ FLOORS = {'*': {
     'refused:PO': 50, 'refused:PK': 500, 'refused:KO': 100, 'refused:VA': 20, 'refused:VK': 20,
     'mode:none': 100, 'mode:name': 100, 'mode:positional': 50, 'mode:view': 100, 'mode:view-classmethod': 100,
     'mode:view-staticmethod': 100, 'annotations-for-the-type-checker-only': 300, 'parameter-names-the-library-uses-itself': 300,
-    'style:async-wrapped': 100, 'validator:pydantic': 100, 'validator:base-with-exclude_param': 300, 'validator:jsonschema-permissive': 300,
+    'style:async-wrapped': 100, 'validator:pydantic': 50, 'validator:pydantic:ignore': 20, 'validator:pydantic:allow': 20, 'validator:base-with-exclude_param': 300, 'validator:jsonschema-permissive': 300,
     'style:def': 300, 'style:async': 300, 'style:async-plain': 300, 'client-names-context': 100,
     'context-identity-checked': 500, 'dual-registration-calls': 500,
 }}
@@ -193,7 +193,7 @@ def build_program(sig, ctx_at, mode, style, annot=False, names=0, validator=None
     import functools
     import typing
     ns = {'LOG': [], 'VIEWS': [], 'ViewMixin': pjrpc.server.ViewMixin, '__name__': MODULE_NAME, 'functools': functools, 'typing': typing}
-    if validator == 'pydantic':
+    if (validator or '').startswith('pydantic'):
         src_g = '\n\n'.join(_none_defaults(part) for part in src_g.split('\n\n'))
         src_f = _none_defaults(src_f)
     src = src_g + '\n\n' + src_f + '\n'
@@ -227,10 +227,12 @@ def run_program(ctx, sig, ctx_at, mode, style, annot=False, names=0, validator=N
         ctx.hit('parameter-names-the-library-uses-itself')
     try:
         ns, src, params = build_program(sig, ctx_at, mode, style, annot, names, validator)
-        if validator == 'pydantic':
+        if (validator or '').startswith('pydantic'):
             from pjrpc.server.validators import pydantic as vpd
-            ctx.hit('validator:pydantic')
-            vpd.PydanticValidator().validate(ns['f'])
+            ctx.hit('validator:' + validator)
+            # (model configuration handed through the validator - extra='ignore' / 'allow' - concerns the MODEL: an argument
+            # name the signature does not have is refused by binding whatever the model would say)
+            vpd.PydanticValidator(**({'extra': validator.split(':')[1]} if ':' in validator else {})).validate(ns['f'])
         elif validator == 'jsonschema':
             # the JSON-schema validator with a schema that constrains nothing: binding alone decides
             from pjrpc.server.validators import jsonschema as vjs
@@ -275,7 +277,7 @@ def run_program(ctx, sig, ctx_at, mode, style, annot=False, names=0, validator=N
     env = dict(ns=ns, src=src, params=params, mode=mode, style=style, is_async=is_async, disp=disp,
                kinds_present=kinds_present, ctx_kind=ctx_kind)
     for case in param_cases(params):
-        if validator == 'pydantic' and any(not isinstance(v, (int, str)) for v in (case.values() if isinstance(case, dict) else case)):
+        if (validator or '').startswith('pydantic') and any(not isinstance(v, (int, str)) for v in (case.values() if isinstance(case, dict) else case)):
             continue          # under a validating annotation only conforming values say anything about binding
         judge_call(ctx, env, 'f', ns['g'], case, designated=mode in ('name', 'positional'))
         if mode == 'name':
@@ -447,7 +449,7 @@ def gen(ctx):
                         and any(p[1] for p in sig)):
                     # the same program under the pydantic validator (kinds the known findings D4 / D18 do not involve)
                     yield 'program', {'sig': sig, 'ctx_at': at, 'mode': mode, 'style': style, 'annot': False, 'names': names,
-                                      'validator': 'pydantic'}
+                                      'validator': ('pydantic', 'pydantic:ignore', 'pydantic', 'pydantic:allow')[(k // 2) % 4]}
 
 
 KINDS = {'program': run_program}
